@@ -471,6 +471,77 @@ theorem readIfValueCased_truncS (k : Comp) (v : Nat) (hvs : c.isSep v = false) (
         · simp
       rw [if_neg this]
 
+theorem readIfValue_eqS (k : Comp) (v : Nat) (cased : Bool) (b b1 : Bytes) (x : Option Nat)
+    (hp : peek c k b = .ok (x, b1)) :
+    readIfValue c k v cased b =
+      .ok (if matchByte v cased x = true then (true, Bytes.at b1 (b1.index + 1)) else (false, b1)) := by
+  unfold readIfValue
+  cases cased with
+  | true =>
+    simp only [if_true, readIfValueCased_eqS hc k v b b1 x hp, matchByte, beq_iff_eq]
+  | false =>
+    simp only [Bool.false_eq_true, if_false, matchByte]
+    unfold readIfValueUncased
+    simp only [hp, bind, Except.bind, pure, Except.pure, iterStep_r hc]
+    cases x with
+    | none => rfl
+    | some y =>
+      simp only
+      split <;> rfl
+
+/-- `read_if_value` (cased or not) of a byte that the separator does not match -/
+theorem readIfValue_truncS (k : Comp) (v : Nat) (cased : Bool)
+    (hvs : ∀ y, matchByte v cased (some y) = true → c.isSep y = false) (b b' : Bytes) (hit : Bool)
+    (hv : Bytes.Valid b) (h : readIfValue c k v cased b = .ok (hit, b')) :
+    b'.slc = b.slc ∧ b.index ≤ b'.index ∧ Bytes.Valid b' ∧ b' = Bytes.at b b'.index ∧
+    (hit = true → b.index < b'.index) ∧
+    (hit = false → peek c k b = .ok (b.slc[b'.index]?, b')) ∧
+    ∀ n, (hit = true → b'.index ≤ n) → (hit = false → Adm c k n b') →
+      readIfValue c k v cased (trunc n b) = .ok (hit, trunc n b') := by
+  cases hp : peek c k b with
+  | error e =>
+    exfalso
+    unfold readIfValue readIfValueCased readIfValueUncased at h
+    simp only [hp, bind, Except.bind] at h
+    split at h <;> cases h
+  | ok pr =>
+    obtain ⟨x, b1⟩ := pr
+    obtain ⟨p1, p2, p3, p4⟩ := peek_at c k b b1 x hv hp
+    have hs1 : b1.slc = b.slc := by rw [p1]; rfl
+    rw [readIfValue_eqS hc k v cased b b1 x hp] at h
+    by_cases hx : matchByte v cased x = true
+    · simp only [hx, if_true, Except.ok.injEq, Prod.mk.injEq] at h
+      obtain ⟨rfl, rfl⟩ := h
+      obtain ⟨y, hy⟩ := matchByte_some v cased x hx
+      have hget : b.slc[b1.index]? = some y := by rw [← p2, hy]
+      have hlt : b1.index < b.slc.length := (List.getElem?_eq_some_iff.mp hget).1
+      refine ⟨by simp [hs1], by simp only [at_index]; omega,
+        by simp only [Bytes.Valid, at_index, at_slc, hs1]; omega, by rw [p1]; rfl,
+        fun _ => by simp only [at_index]; omega, (fun hh => Bool.noConfusion hh), ?_⟩
+      intro n hn _
+      have hn := hn rfl
+      simp only [at_index] at hn
+      have ha1 : Adm c k n b1 := by
+        refine Adm.of_lt (by omega) ?_
+        intro z hz
+        rw [hs1, hget] at hz; cases hz
+        exact hvs y (by rw [← hy]; exact hx)
+      have e : (if b1.index < n then x else none) = x := if_pos (by omega)
+      rw [readIfValue_eqS hc k v cased _ _ _ (peek_trunc c k b b1 x hv hp n ha1), e, if_pos hx]
+      rfl
+    · simp only [hx, if_false, Except.ok.injEq, Prod.mk.injEq] at h
+      obtain ⟨rfl, rfl⟩ := h
+      refine ⟨hs1, p3, by simp only [Bytes.Valid, hs1]; exact p4, p1, (fun hh => Bool.noConfusion hh),
+        fun _ => by rw [← p2], ?_⟩
+      intro n _ ha
+      have ha := ha rfl
+      rw [readIfValue_eqS hc k v cased _ _ _ (peek_trunc c k b b' x hv hp n ha)]
+      have : ¬ matchByte v cased (if b'.index < n then x else none) = true := by
+        split
+        · exact hx
+        · rw [matchByte_none]; simp
+      rw [if_neg this]
+
 /-- `skip_zeros` loop: cut at an admissible point of the state it returns -/
 theorem skipZerosLoop_truncS (k : Comp) (h48 : c.isSep 48 = false) :
     ∀ (fuel : Nat) (b zb : Bytes), Bytes.Valid b → skipZerosLoop c k fuel b = .ok zb →
